@@ -60,19 +60,41 @@ def strip_comments(src: str) -> str:
     return "\n".join(l.split("--", 1)[0] for l in text.split("\n"))
 
 
-def scan_forbidden():
-    """returns list of (file, line_no, line) with forbidden tokens outside comments"""
+def import_closure(roots):
+    """modules of this project reachable by `import` from the given module names"""
+    seen, todo = set(), list(roots)
+    while todo:
+        m = todo.pop()
+        if m in seen:
+            continue
+        p = os.path.join(LEAN_DIR, *m.split(".")) + ".lean"
+        if not os.path.exists(p):
+            continue
+        seen.add(m)
+        with open(p, encoding="utf-8") as f:
+            for imp in re.findall(r"^import\s+(\S+)", f.read(), re.M):
+                if imp.startswith("OptiVerif") or imp.startswith("Driver"):
+                    todo.append(imp)
+    return seen
+
+
+def scan_forbidden(roots=None):
+    """(file, line_no, line) with forbidden tokens outside comments, in the import closure of `roots`
+    (every file of the project when roots is None)"""
     hits = []
-    for root in (os.path.join(LEAN_DIR, "OptiVerif"), os.path.join(LEAN_DIR, "Driver")):
-        for d, _, files in os.walk(root):
-            for fn in files:
-                if fn.endswith(".lean"):
-                    p = os.path.join(d, fn)
-                    with open(p, encoding="utf-8") as f:
-                        body = strip_comments(f.read())
-                    for k, line in enumerate(body.split("\n"), 1):
-                        if FORBIDDEN.search(line):
-                            hits.append((os.path.relpath(p, LEAN_DIR), k, line.strip()))
+    files = []
+    if roots is None:
+        for root in (os.path.join(LEAN_DIR, "OptiVerif"), os.path.join(LEAN_DIR, "Driver")):
+            for d, _, fns in os.walk(root):
+                files += [os.path.join(d, fn) for fn in fns if fn.endswith(".lean")]
+    else:
+        files = [os.path.join(LEAN_DIR, *m.split(".")) + ".lean" for m in sorted(import_closure(roots))]
+    for p in files:
+        with open(p, encoding="utf-8") as f:
+            body = strip_comments(f.read())
+        for k, line in enumerate(body.split("\n"), 1):
+            if FORBIDDEN.search(line):
+                hits.append((os.path.relpath(p, LEAN_DIR), k, line.strip()))
     return hits
 
 
@@ -83,6 +105,27 @@ def build(targets, timeout=3000):
         p = subprocess.run(["lake", "build"] + list(targets), cwd=LEAN_DIR, stdout=subprocess.PIPE,
                            stderr=subprocess.STDOUT, text=True, timeout=timeout)
     return p.returncode == 0, p.stdout, time.time() - t0
+
+
+def build_driver_isolating(timeout=3000):
+    """Build the driver; when a model that is not ours fails to compile, leave its handlers out and retry, so that one
+    broken model (a mutated table of another property, work in progress) cannot take the other checks down.
+    returns (ok, excluded_modules, output)"""
+    import gen_lean_index
+    excluded = set()
+    out = ""
+    for _ in range(6):
+        with lake_lock():
+            gen_lean_index.main(exclude=excluded)
+        ok, out, _ = build(["driver"], timeout)
+        if ok:
+            return True, sorted(excluded), out
+        failed = set(re.findall(r"^- (OptiVerif\.\S+)", out, re.M)) | set(re.findall(r"Building (OptiVerif\.\S+)", "\n".join(l for l in out.split("\n") if l.startswith("✖"))))
+        failed = {m for m in failed if ".Model." in m or ".Gen." in m}
+        if not failed or failed <= excluded:
+            break
+        excluded |= failed
+    return False, sorted(excluded), out
 
 
 def prop_theorems(prop_id):
@@ -114,9 +157,9 @@ def audit(prop_id, timeout=1800):
         raise RuntimeError(out)
     res = {}
     # "'X' depends on axioms: [a, b]"  or "'X' does not depend on any axioms"
-    for m in re.finditer(r"'([^']+)' depends on axioms: \[([^\]]*)\]", out, re.S):
+    for m in re.finditer(r"^'([^\n]+?)' depends on axioms: \[([^\]]*)\]", out, re.S | re.M):
         res[m.group(1)] = sorted(a.strip() for a in m.group(2).replace("\n", " ").split(",") if a.strip())
-    for m in re.finditer(r"'([^']+)' does not depend on any axioms", out):
+    for m in re.finditer(r"^'([^\n]+?)' does not depend on any axioms", out, re.M):
         res[m.group(1)] = []
     missing = [n for n in names if (f"{ns}.{n}" if ns else n) not in res]
     if missing:
